@@ -111,12 +111,17 @@ def judge(spec, obs, real=False):
         exp = sv.expected(tree, rid, reqs[rid], forced)
         bad = c02.judge_call(rec, tree, reqs, spec['capacity'], None)
         if bad:
-            if real and rec['kind'] == 'exc':
-                # batch membership is unobservable across processes: a request that passes a batched worker may legitimately fail with
-                # the error of ANY poison element of that worker (it may have shared its batch)
+            if real and rec['kind'] in ('exc', 'value'):
+                # batch membership is unobservable across processes: the request may have shared a batch with ANY poison element of a
+                # batched worker it passes; accept the outcome if it matches the reference under one of these possibilities
                 btags = [n['tag'] for n in sv.tree_tags(tree) if (n.get('bs') or 0) > 0]
-                poss = [sv.exc_norm(sv.make_exc(p2['f'][t], t, r2)) for r2, p2 in reqs.items() for t in btags if p2['f'].get(t)]
-                if sv.exc_norm(rec['payload']) in poss:
+                alts = []
+                for t in btags:
+                    for r2, p2 in reqs.items():
+                        if p2['f'].get(t):
+                            alts.append({t: sv.exc_norm(sv.make_exc(p2['f'][t], t, r2))})
+                obs_n = sv.norm_outcome('value' if rec['kind'] == 'value' else 'exc', rec['payload'])
+                if any(sv.match_expected(obs_n, sv.expected(tree, rid, reqs[rid], alt)) is None for alt in alts):
                     continue
             clause = {'wrong_outcome': 'innocent_affected' if exp['kind'] == 'ok' else 'wrong_error'}.get(bad[0], bad[0])
             raise Violation(clause, bad[1], signature=[clause])
